@@ -121,9 +121,10 @@ Definition needs_forcing (g cfg : list Z) : bool :=
   negb (memZ undet cfg) && existsb (abundant g cfg) (alleles_of g cfg).
 
 (* What the arg-max loop keeps when NO candidate has a likelihood > -inf (binom.pmf underflows to 0 for every
-   candidate): the current code starts from best_config = given_config and replaces it only on a strictly
-   larger likelihood, so the given (non-conforming) configuration survives.  The repaired rule takes a
-   candidate in every case.  This is the single switch between the code as it is and the repaired code. *)
+   candidate).  AlwaysCandidate = the code as it is since /repo e62f700 (best_config starts as None, the first
+   candidate is taken unconditionally): a candidate in every case.  KeepGiven = the code before that fix: it started
+   from best_config = given_config and replaced it only on a strictly larger likelihood, so the given (non-conforming)
+   configuration survived.  This is the single switch between the two. *)
 Inductive fallback := KeepGiven | AlwaysCandidate.
 Definition fallback_extra (fb : fallback) (cfg : list Z) : list (option (list Z)) :=
   match fb with KeepGiven => [Some cfg] | AlwaysCandidate => [] end.
